@@ -6,13 +6,15 @@ compared with the same call on a freshly built, equally configured object in a p
 Faults: bad_call, collab_fail, interrupt, abandon (DESIGN.md 2.4).
 """
 from ..base import B
-from ..plan import PlanBuilder, oracle_plan_for_call
+from ..plan import PlanBuilder, obj_closure, oracle_plan_for_call
 from .common import Machine, hash_len_classes, msg_of_len, rbytes, vio
 
 CHK = "chk"     # op class: judged against the fresh twin
 HIST = "hist"   # op class: executed and recorded, never judged
 BAD = "bad"     # op class: a call the library itself rejects (fault kind bad_call)
 ABN = "abn"     # op class: generator started and abandoned part-way (fault kind abandon)
+RCF = "rcf"     # op class: a valid reconfiguration call (setrate / counter.setup / setkey): never judged and
+                # never faulted; from then on the fresh twin is built with the new configuration
 
 
 class Ctx(object):
@@ -295,6 +297,19 @@ def keccak_ops(sha3=False):
         x.open_gens.append(g)
     ops["iter_part"] = (ABN, iter_part)
 
+    def setrate(x, c):
+        # a valid reconfiguration: from here on the object is "equally configured" to Keccak(b, c=b-r, len)
+        b = x.info["b"]
+        cands = [r for r in (8, 40, 72, 136, 144, 256, 576, 832, 1024, 1088, 1152, 1344, 1336) if r < b]
+        r = x.opt("r", lambda: x.rng.choice(cands))
+        rec = x.pb.plan["objects"][x.obj]
+        ln = rec["len"] if rec.get("kind") == "Keccak" else int(rec["path"].rsplit("_", 1)[1])
+        x.call(c, "setrate", [r], cls=RCF, tag="setrate",
+               reconf={"recipe": {"kind": "Keccak", "b": b, "c": b - r, "len": ln}})
+        x.info["r"] = r
+        x.info["bb"] = max(1, r // 8)
+    ops["setrate"] = (RCF, setrate)
+
     def bad_bitlen(x, c):
         m = x.msg()
         x.call(c, "__call__", [B(m)], {"bitlen": 8 * len(m) + x.rng.randint(1, 9)}, cls=BAD,
@@ -395,6 +410,23 @@ def hmac_ops():
         x.call(c, "update", [B(_aligned(x.rng, x.info["bb"], 1))], cls=HIST, tag="h_update",
                obj=x.aux["h"])
     ops["h_update"] = (HIST, h_update)
+
+    def setkey(x, c):
+        bb = x.info["bb"]
+        k = x.opt("key", lambda: rbytes(x.rng, x.rng.choice([1, 16, bb - 1, bb, bb, bb + 1, 2 * bb])))
+        lit = {"ba": k.hex()} if x.rng.random() < 0.2 else B(k)
+        x.call(c, "setkey", [lit], cls=RCF, tag="setkey", reconf={"set": {"key": B(k)}})
+    ops["setkey"] = (RCF, setkey)
+
+    def key_wipe(x, c):
+        # the caller wipes / re-uses the bytearray it handed over as the key at construction
+        kb = x.info.get("keybuf")
+        if kb is None:
+            return call(x, c)
+        n = x.info["keylen"]
+        scr = bytes(n) if x.rng.random() < 0.5 else rbytes(x.rng, x.rng.choice([n, n, 3]))
+        x.pb.step(c, k="mutate", obj=kb, val=B(scr), cls=HIST, tag="key_wipe", kind=x.kind)
+    ops["key_wipe"] = (HIST, key_wipe)
 
     def bad_type(x, c):
         x.call(c, "__call__", [12345], cls=BAD, tag="bad_type")
@@ -582,6 +614,29 @@ def mode_ops(ctr=False):
             for _ in range(x.rng.randint(1, 3)):
                 x.call(c, "counter", cls=HIST, tag="counter_tick")
         ops["counter_tick"] = (HIST, counter_tick)
+
+        def counter_setup(x, c):
+            # a valid reconfiguration of the (default) counter: nonce and start value replaced
+            h = x.info["bb"] // 2
+            v = x.rng.random()
+            nonce = x.opt("ctr_nonce", lambda: rbytes(x.rng, h))
+            count = x.opt("ctr_count", lambda: x.rng.choice([bytes(h), b"\xff" * (h - 1) + b"\xfe", rbytes(x.rng, h)]))
+            if v < 0.12:
+                args, iv = [], bytes(2 * h)
+            elif v < 0.25:
+                args, iv = [B(nonce)], nonce + bytes(h)
+            elif v < 0.8:
+                args, iv = [B(nonce), B(count)], nonce + count
+            else:
+                # lengths other than half a block each: the fresh twin is configured through setup() too
+                w = x.rng.choice([1, h - 1, h + 1, 2 * h]) or 1
+                args = [B(nonce), B(rbytes(x.rng, w))] if x.rng.random() < 0.7 else [B(rbytes(x.rng, w)), B(count)]
+                x.call(c, "counter.setup", args, cls=RCF, tag="counter_setup",
+                       reconf={"via": "counter", "set": {"setup": args}, "else_set": {"counter_setup": args}})
+                return
+            x.call(c, "counter.setup", args, cls=RCF, tag="counter_setup",
+                   reconf={"via": "counter", "set": {"iv": B(iv), "setup": None}, "else_set": {"counter": B(iv), "counter_setup": None}})
+        ops["counter_setup"] = (RCF, counter_setup)
     if not ctr:
         def bad_dec(x, c):
             x.call(c, "dec", [B(_unaligned(x.rng, x.info["bb"]))], cls=BAD, tag="bad_dec")
@@ -832,6 +887,12 @@ def mk_hmac(rng, pb, px):
         hh = pb.obj({"kind": "proxy", "inner": {"obj": h}})
         info["proxy"] = hh
     key = rbytes(rng, rng.choice([1, 16, bb - 1, bb, bb + 1, 2 * bb]))
+    if rng.random() < 0.2:
+        # the key is handed over in the caller's own bytearray (which the caller may wipe afterwards)
+        key = rbytes(rng, rng.choice([16, bb, bb, 2 * bb]))
+        info["keybuf"] = pb.obj({"kind": "value", "val": {"ba": key.hex()}})
+        info["keylen"] = len(key)
+        return pb.obj({"kind": "HMAC", "h": {"obj": hh}, "key": {"obj": info["keybuf"]}}), info
     return pb.obj({"kind": "HMAC", "h": {"obj": hh}, "key": B(key)}), info
 
 
@@ -994,6 +1055,68 @@ _PEEK = ["H", "size", "blocksize", "outlen", "padmethod", "padmethod.bitcnt", "l
          "salt", "rounds", "h", "tran", "checksum", "Lvalue", "E1", "Ts", "version", "w", "b", "n"]
 
 
+_SINGLETON_CLASS = {
+    "blake_singleton": {"kind": "Blake", "size": 256}, "blake2_singleton": {"kind": "Blake2", "size": 256},
+    "keccak_singleton": {"kind": "Keccak", "b": 1600, "c": 512, "len": 256},
+    "tlsh_singleton": {"kind": "TLSH", "buckets": 128, "wnd": 5, "chk": 1},
+}
+_CONS_DEFAULTS = {"Nilsimsa": {"target": 53}, "MD6": {"d": 512, "L": 0}, "SHA1": {"version": 1}, "Salsa20": {"rounds": 20},
+                  "Chacha": {"rounds": 8}, "TLSH": {"wnd": 5, "chk": 1}}
+_NUMERIC = ("size", "version", "t", "b", "c", "len", "d", "L", "Nb", "No", "buckets", "wnd", "chk", "target", "rounds",
+            "bytesize", "blocksize")
+
+
+def _with_bad_make(ops):
+    """fault kind bad_call on a constructor: an object of the same class is constructed with a configuration
+    that differs from the main object's in one field - the same number as a float, a neighbouring
+    unsupported number, a key of the wrong length or type, a missing collaborator - and is never used.
+    Whether or not the library refuses the construction, the main object must be unaffected."""
+    import copy
+
+    def bad_make(x, c):
+        rec = copy.deepcopy(x.pb.plan["objects"][x.obj])
+        if rec.get("kind") == "attr":
+            rec = dict(_SINGLETON_CLASS.get(x.kind, {}))
+        if not rec or rec.get("kind") in ("proxy", "value"):
+            return
+        for k, v in _CONS_DEFAULTS.get(rec["kind"], {}).items():
+            rec.setdefault(k, v)
+        nums = [k for k in _NUMERIC if isinstance(rec.get(k), int) and not isinstance(rec.get(k), bool)]
+        keys = [k for k in ("key", "iv", "counter", "tweak", "G") if isinstance(rec.get(k), dict) and "b" in rec[k]]
+        colls = [k for k in ("cipher", "h") if k in rec]
+        v = x.rng.random()
+        how = None
+        if nums and (v < 0.5 or not (keys or colls)):
+            f = x.rng.choice(nums)
+            if x.rng.random() < 0.6:
+                rec[f] = float(rec[f])
+                how = "float"
+            else:
+                rec[f] = rec[f] + x.rng.choice([1, -1])
+                how = "neighbour"
+        elif keys and (v < 0.85 or not colls):
+            f = x.rng.choice(keys)
+            raw = bytes.fromhex(rec[f]["b"])
+            w = x.rng.random()
+            if w < 0.4:
+                rec[f] = B(raw[:-1])
+            elif w < 0.7:
+                rec[f] = B(raw + b"\x00")
+            else:
+                rec[f] = x.rng.choice([12345, None])
+            how = "key"
+        elif colls:
+            rec[x.rng.choice(colls)] = None
+            how = "collaborator"
+        if how is None:
+            return
+        rec["deferred"] = True
+        bo = x.pb.obj(rec)
+        x.pb.step(c, k="make", slot=bo, obj=x.obj, name="make", cls=BAD, tag="bad_make", kind=x.kind, how=how)
+    ops["bad_make"] = (BAD, bad_make)
+    return ops
+
+
 def _with_peek(ops):
     """reading public attributes, repr() and str() between calls must not change anything"""
     def peek(x, c):
@@ -1040,6 +1163,7 @@ KINDS = {
 for _k in list(KINDS):
     if _k != "crc":
         _with_peek(KINDS[_k][2])
+        _with_bad_make(KINDS[_k][2])
 SINGLETONS = {"blake_singleton", "blake2_singleton", "keccak_singleton", "tlsh_singleton", "crc"}
 _KNAMES = sorted(KINDS)
 _KNAMES_NS = [k for k in sorted(KINDS) if k not in SINGLETONS]
@@ -1080,7 +1204,7 @@ def all_fault_bigrams():
         names = sorted(ops)
         chk = [n for n in names if ops[n][0] == CHK]
         for a in names:
-            if ops[a][0] == BAD:
+            if ops[a][0] in (BAD, RCF):
                 continue
             for c in chk:
                 for u in (0.0, 0.02, 0.5, 0.97):
@@ -1258,7 +1382,19 @@ def _twin(rng, pb, n0, n1, o, info, keep_key=False):
         sinfo["proxy"] = sinfo["proxy"] + d
     if "aux" in sinfo:
         sinfo["aux"] = {k: (v + d if n0 <= v < n1 else v) for k, v in sinfo["aux"].items()}
+    if "keybuf" in sinfo:
+        sinfo["keybuf"] = sinfo["keybuf"] + d
     return o + d, sinfo
+
+
+def _patched(rec, upd):
+    r = dict(rec)
+    for k, v in upd.items():
+        if v is None:
+            r.pop(k, None)
+        else:
+            r[k] = v
+    return r
 
 
 class C10(Machine):
@@ -1276,7 +1412,8 @@ class C10(Machine):
     }
     rule = ("one evaluation = one simulated run (1-3 clients, <=14 steps) executed in a child forked from a pristine "
             "zygote; every checked one-shot call is compared with the same call on a freshly built object in its own "
-            "pristine child. distinct = distinct abstract traces (sequence of (client, object role, kind, op class, fault)); "
+            "pristine child (built with the configuration in force at that point: valid setrate / counter.setup / setkey "
+            "calls move it, refused ones do not). distinct = distinct abstract traces (sequence of (client, object role, kind, op class, fault)); "
             "non-trivial = the trace has at least one judged call preceded by at least one other step that touches the "
             "same object, a sibling of the same class, or module state")
 
@@ -1348,6 +1485,7 @@ class C10(Machine):
                 sinfo["open_gens"] = []
                 if kind == "HMAC":
                     rec["key"] = B(rbytes(rng, rng.choice([1, 16, info["bb"], info["bb"] + 1])))
+                    sinfo.pop("keybuf", None)
                 else:
                     _cz_mode(rng, rec, sinfo)
                 so = pb.obj(rec)
@@ -1390,6 +1528,19 @@ class C10(Machine):
             KINDS[ctx.kind][2][n][1](ctx, c)
 
         c0 = pb.client()
+        if kind not in SINGLETONS and mode != 3 and gsteer is None and rng.random() < 0.2 and "keybuf" not in info \
+                and (sib is None or "keybuf" not in sib.info):
+            # the main object (and its sibling) is constructed only now, in the schedule - after, three times
+            # out of four, a refused or odd construction of a related object of the same class
+            if rng.random() < 0.75:
+                fk["bad_call"] = True
+                emit(x, c0, "bad_make")
+            firsts = [x] + ([sib] if sib is not None else [])
+            rng.shuffle(firsts)
+            for t in firsts:
+                pb.plan["objects"][t.obj]["deferred"] = True
+                pb.step(c0, k="make", slot=t.obj, obj=t.obj, name="make", tag="make_first", kind=t.kind, cls=HIST, core=True)
+            pb.plan["meta"]["deferred_construction"] = True
         npre = rng.choice([0, 0, 1, 2, 3])
         for _ in range(npre):
             emit(x, c0, rng.choice(ok_names))
@@ -1454,7 +1605,8 @@ class C10(Machine):
                 pb.plan["meta"]["shared"] = True
             else:
                 tgt = oth
-            if tgt is sib and rng.random() < 0.4 and not pb.plan["meta"].get("late_sibling") and mode != 3:
+            if tgt is sib and rng.random() < 0.4 and not pb.plan["meta"].get("late_sibling") and mode != 3 \
+                    and "keybuf" not in sib.info:
                 # the sibling is (re)built only now, after the main object may already have worked
                 pb.step(c, k="make", slot=sib.obj, obj=sib.obj, name="make", tag="make", kind=sib.kind, cls=HIST)
                 pb.plan["meta"]["late_sibling"] = True
@@ -1471,7 +1623,7 @@ class C10(Machine):
                 if isinstance(a0, dict) and set(a0) == {"b"}:
                     a0["ba"] = a0.pop("b")
         # fault plan: interrupts / collaborator failures on 1-2 call steps
-        calls = [s for s in plan["steps"] if s["k"] in ("call", "pull") and s.get("cls") != BAD and not s.get("core")]
+        calls = [s for s in plan["steps"] if s["k"] in ("call", "pull") and s.get("cls") not in (BAD, RCF) and not s.get("core")]
         nf = 0
         if fk["interrupt"] and calls:
             for s in rng.sample(calls, min(len(calls), rng.choice([1, 1, 2]))):
@@ -1511,6 +1663,16 @@ class C10(Machine):
         nontrivial = False
         ngrams = set()
         fcount = {}
+        # effective configuration: starts as the recipes of the plan; a successful reconfiguration step
+        # replaces the recipe the fresh twin is built from; a failed one makes the configuration unknown
+        # (nothing that depends on it is judged any more); a late 'make' rebuilds from the plan's recipe
+        def _nd(r):
+            return {k: v for k, v in r.items() if k != "deferred"} if "deferred" in r else r
+        eff = [_nd(r) for r in plan["objects"]]
+        has_deferred = any("deferred" in r for r in plan["objects"])
+        built = set(i for i, r in enumerate(plan["objects"]) if "deferred" not in r)
+        unknown = set()
+        reconfd = set()
         for s in plan["steps"]:
             e = by_id[s["id"]]
             out = e["out"]
@@ -1536,8 +1698,18 @@ class C10(Machine):
             trace.append("%d:%s:%s:%s%s" % (s.get("c", 0), roles.get(str(oi), "aux"), kind, tag, ftag))
             hist_obj = last_on_obj.setdefault(oi, [])
             judged = s.get("cls") == CHK and not fired and out[0] in ("ok", "exc")
+            if judged and has_deferred and oi not in built:
+                judged = False            # the object of this step has not been constructed yet
+                probe("not_judged_object_not_yet_constructed")
+            if judged and (unknown or reconfd):
+                deps = obj_closure(eff, [oi])
+                if deps & unknown:
+                    judged = False
+                    probe("not_judged_configuration_unknown")
+                elif deps & reconfd:
+                    probe("judged_after_reconfiguration")
             if judged:
-                mini = oracle_plan_for_call(plan, s, by_id)
+                mini = oracle_plan_for_call(plan if not (reconfd or has_deferred) else dict(plan, objects=eff), s, by_id)
                 if mini is not None:
                     oh = oracle.ask(mini)
                     exp = oh[0]["out"]
@@ -1556,6 +1728,8 @@ class C10(Machine):
                         p = hist_obj[-1]
                         if p[1] == BAD and p[2] == "exc":
                             probe("checked_after_bad_call_same_obj")
+                        if p[0] == "bad_make":
+                            probe("checked_after_%s_construction_of_a_related_object" % ("refused" if p[2] == "exc" else "accepted"))
                         if p[3] == "collab_fail":
                             probe("checked_after_collab_fail_same_obj")
                         if p[3] == "interrupt":
@@ -1581,6 +1755,33 @@ class C10(Machine):
                     sibs = [q for q in prev_any if q[0] == kind and q[1] != oi]
                     if sibs:
                         probe("sibling_instance_of_same_kind_used_before")
+            if s["k"] == "make" and plan["objects"][s["slot"]].get("kind") != "attr":
+                # (a 'make' of a module-level singleton hands out the same, possibly reconfigured, object)
+                eff[s["slot"]] = _nd(plan["objects"][s["slot"]])
+                if out[0] == "ok" and not fired:
+                    built.add(s["slot"])
+                    if s.get("tag") == "make_first":
+                        probe("main_or_sibling_constructed_inside_the_schedule")
+                unknown.discard(s["slot"])
+                reconfd.discard(s["slot"])
+            if s.get("reconf"):
+                eff2 = list(eff)
+                touched = self._apply_reconf(eff2, oi, s["reconf"])
+                r0 = plan["objects"][oi]
+                if r0.get("kind") == "attr":
+                    # two recipes naming one module-level singleton are one object
+                    for j, rj in enumerate(plan["objects"]):
+                        if j != oi and rj == r0:
+                            eff2[j] = eff2[oi]
+                            touched.add(j)
+                if out[0] == "ok" and not fired:
+                    eff = eff2
+                    reconfd |= touched
+                    probe("reconfigurations_applied")
+                elif out[0] == "exc" and not fired:
+                    probe("reconfigurations_refused")      # a call that ended in an error changes nothing
+                else:
+                    unknown |= touched
             fk = flt["kind"] if (flt and fired) else None
             where = out[1] if out[0] == "interrupted" and len(out) > 1 else None
             hist_obj.append((tag, s.get("cls"), out[0], fk, where, s.get("c")))
@@ -1600,6 +1801,28 @@ class C10(Machine):
         extra = {"ngrams": sorted(ngrams), "faults": fcount,
                  "fps": sorted(set((plan["meta"].get("kind", "?") + ":" + f) for e in hist for f in e.get("fp", [])))}
         return vs, probes, "|".join(trace), nontrivial, extra
+
+    @staticmethod
+    def _apply_reconf(eff, oi, rc):
+        """Replace, in eff, the recipe that a successful reconfiguration step changes; returns the
+        indices whose recipe changed.  Patches are expressed relative to the step's object (no
+        absolute indices), so they survive compaction of a shrunk plan."""
+        rec = eff[oi]
+        if "recipe" in rc:
+            eff[oi] = dict(rc["recipe"])
+            return {oi}
+        if "via" in rc:
+            v = rec.get(rc["via"])
+            if isinstance(v, dict) and "obj" in v:
+                t = v["obj"]
+                while eff[t].get("kind") == "proxy":
+                    t = eff[t]["inner"]["obj"]
+                eff[t] = _patched(eff[t], rc["set"])
+                return {t}
+            eff[oi] = _patched(rec, rc["else_set"])
+            return {oi}
+        eff[oi] = _patched(rec, rc["set"])
+        return {oi}
 
     def totals(self):
         return {"bigrams_total": len(_BI), "trigrams_total": len(_TRI), "fault_bigrams_total": len(_FB), "generator_interleavings_total": len(_GI)}
@@ -1664,7 +1887,7 @@ class C10(Machine):
         enc(), or its public pad object driven directly).  True iff the minimised plan is
         '(enc | pad.iterblocks+drain)..., dec' on one such object without faults and the observed
         outcome is exactly what that defect predicts; anything else is reported as new."""
-        steps = plan["steps"]
+        steps = [s for s in plan["steps"] if not (s.get("k") == "make" and s.get("cls") != BAD)]   # (constructions are not history)
         if len(steps) < 2 or any(s.get("fault") for s in steps):
             return False
         oi = steps[-1].get("obj")
